@@ -60,9 +60,11 @@ def main():
                     first = f"{k}: {v.get('first', '')[:140]}"
         c = meta.get('confirmed', {})
         ok = c.get('applies') and c.get('repo_tests_pass') and c.get('demo_clean_exit') == 0 and c.get('demo_patched_exit')
-        rows.append((d, title, 'yes' if ok else 'NO', ', '.join(sorted(det)) or meta.get('status', '-'), first))
+        rows.append((d, title, ('yes' if ok else 'NO') + (' (on the tree it was written against; see meta.json head_note)' if meta.get('head_note') else ''),
+                     ', '.join(sorted(det)) or meta.get('status', '-'), first))
     out = ['# Seeded property-breaking changes', '',
-           'Each directory holds `patch.diff` (applies to /repo with `git apply`), `demo.py` (passes on the unchanged tree, fails with the change), the author\'s `notes.md` '
+           'Each directory holds `patch.diff` (applies to /repo with `git apply`; a few older ones apply only to the tree they were written against, because later fix: commits '
+           'occupy the same lines - their `meta.json` says so in `head_note`), `demo.py` (passes on the unchanged tree, fails with the change), the author\'s `notes.md` '
            'and `meta.json` (what it breaks, what it needs to manifest, what was run, which checks report it). None of them is ever committed to /repo.', '',
            '| id | change | tests pass + demo flips | reported by (quick tier unless noted) | first report |', '|---|---|---|---|---|']
     for r in rows:
